@@ -54,35 +54,57 @@ def gen_bad_frames(rng, seeds, n):
     return out
 
 
-def exchange(ctx, rng, seeds, n):
+def short_states(seeds):
+    """DECODABLE but degenerate responses: every state response of the seeds cut to each payload length 16..24
+    (payload = body + message id; optional trailing fields absent -> attributes stay unknown)"""
+    out = []
+    for s in seeds:
+        if len(s) > 12 and s[10] == 0xC0:
+            body = s[10:-2]
+            for k in range(15, min(len(body), 24)):
+                out.append(respgen.make_frame(body[:k], frame_type=s[9], style="crc"))
+    return out
+
+
+def exchange(ctx, rng, seeds, n, stream="exchange", nops=(1, 1)):
+    """`nops` operations in a row on the SAME device object: what an earlier response left behind (unknown optional
+    fields, capabilities, pending properties) must not make a later operation raise"""
+    shorts = short_states(seeds)
     for _ in range(n):
-        op = rng.choice(["refresh", "apply", "getcaps", "toggle", "selfclean"])
         cfg = [("reqe", str(rng.randrange(2))), ("shum", str(rng.randrange(2))),
                ("sprops", "+".join(str(x) for x in rng.sample([9, 10, 24, 57, 66, 67, 72, 227], rng.randrange(0, 4))))]
-        replies = []
-        for _ in range(rng.randrange(1, 5)):
-            fs = []
-            for _ in range(rng.randrange(0, 4)):
-                if rng.random() < 0.5:
-                    fs.append(rng.choice(seeds))
-                else:
-                    fs.extend(gen_bad_frames(rng, seeds, 1))
-            replies.append(fs)
-        if op == "apply":
-            cfg.append(("rate", "50"))
-        ops = [("op", op, replies)]
-        st, failed, state, sent, dev = devrun.compare(ctx, "exchange", cfg, rng.randrange(0, 300), ops)
+        ops, names = [], []
+        for _k in range(rng.randrange(nops[0], nops[1] + 1)):
+            op = rng.choice(["refresh", "apply", "getcaps", "toggle", "selfclean"])
+            replies = []
+            for _ in range(rng.randrange(1, 5)):
+                fs = []
+                for _ in range(rng.randrange(0, 4)):
+                    r = rng.random()
+                    if r < 0.4:
+                        fs.append(rng.choice(seeds))
+                    elif r < 0.6 and shorts:
+                        fs.append(rng.choice(shorts))
+                    else:
+                        fs.extend(gen_bad_frames(rng, seeds, 1))
+                replies.append(fs)
+            if op == "apply" and not any(k == "rate" for k, _v in cfg):
+                cfg.append(("rate", "50"))
+            ops.append(("op", op, replies))
+            names.append(op)
+        st, failed, state, sent, dev = devrun.compare(ctx, stream, cfg, rng.randrange(0, 300), ops)
         inp = {"line": devrun.line_for(cfg, 0, ops)}
         if st != "ok":
-            ctx.violate("exchange", inp, st, "operation returns normally", f"{op}() raised {st[4:]}")
+            ctx.violate(stream, inp, st, "operation returns normally", f"{'+'.join(names)}: raised {st[4:]}")
         else:
-            good = [[f for f in r if not acgen.impl_construct(f)[0].startswith("err")] for r in replies]
-            st2, _, state2, _, _ = devrun.run_impl(cfg, 0, [("op", op, good)])
+            good = [("op", o, [[f for f in r if not acgen.impl_construct(f)[0].startswith("err")] for r in reps])
+                    for (_t, o, reps) in ops]
+            st2, _, state2, _, _ = devrun.run_impl(cfg, 0, good)
             if st2 != "ok" or state2 != state:
-                ctx.violate("exchange", inp, {"state": state}, {"state_from_decodable_only": state2, "status": st2},
+                ctx.violate(stream, inp, {"state": state}, {"state_from_decodable_only": state2, "status": st2},
                             "decodable responses of a mixed exchange were not applied exactly")
-        ctx.count(f"exchange:{op}:{st}")
-        ctx.case("exchange", key=inp["line"], sample={"op": op, "frames": [len(r) for r in replies], "status": st})
+        ctx.count(f"{stream}:{'+'.join(names) if len(names) == 1 else str(len(names)) + 'ops'}:{st}")
+        ctx.case(stream, key=inp["line"], sample={"ops": names, "status": st})
 
 
 def run(ctx):
@@ -127,6 +149,7 @@ def run(ctx):
         raw = bytes(rng.randrange(256) for _ in range(rng.randrange(1, 60)))
         check_construct(ctx, "raw", respgen.outer(raw))
     exchange(ctx, rng, seeds, 400 if not thorough else 6000)
+    exchange(ctx, rng, seeds, 300 if not thorough else 5000, stream="sequence", nops=(2, 4))
 
 
 def search(ctx):
@@ -137,6 +160,7 @@ def search(ctx):
         if ctx.violations:
             return
     exchange(ctx, rng, seeds, 3000)
+    exchange(ctx, rng, seeds, 3000, stream="sequence", nops=(2, 4))
 
 
 def replay(ctx, case):
